@@ -28,6 +28,9 @@ def monitor(case, line):
                     "becomes due during a timer pass has to wait for the next iteration" % tok[9:])
         if tok.startswith("!twice"):
             return "timer %s fired twice without a poll phase (or a new uv_run) in between" % tok[6:]
+        if tok.startswith("!btq"):
+            return ("uv_backend_timeout() = %s while descriptor registrations are still waiting to be applied "
+                    "(loop->watcher_queue is not empty): it has to report 0" % tok[4:])
         if tok.startswith("!overdue"):
             return ("timer %s was armed before the last check/close/poll-phase callback of the iteration ended and was due by "
                     "then, but the timer phase of that iteration did not fire it (the loop's time was not refreshed "
